@@ -676,6 +676,14 @@ def rule_r16(prog, res):
               'C07', c07.rule_r18, prog, Result)
 
 
+def rule_r17(prog, res):
+    from . import c08
+    from ..report import Result
+    res.share('R17', 'binary text carried by an XmlData member or an '
+              'attribute is read with the protocol\'s binary encoding '
+              '(C08-R16)', 'C08', c08.rule_r16, prog, Result)
+
+
 def run(prog, res, tier):
     res.run_rule(rule_shared2, prog, res)
     res.run_rule(rule_r1, prog, res)
@@ -691,6 +699,7 @@ def run(prog, res, tier):
     res.run_rule(rule_r14, prog, res)
     res.run_rule(rule_r15, prog, res)
     res.run_rule(rule_r16, prog, res)
+    res.run_rule(rule_r17, prog, res)
 
 
 _X = 'spyne/protocol/xml.py'
